@@ -763,26 +763,33 @@ structure RowRes where
   stackEndsTime : Rat := 0
   nStackBreaks : Nat := 0
 
-/-- the loop over the events of one row -/
+/-- what processEvents does for one event of a row: handleEvent, then the loop flags it raised; the `Bool` says that the
+    loop end (or a counted loop's end) was caught and the row must be left -/
+def eventStep (tk : Nat) (rowTime : Rat) (e : Ev) (last : Int) (r : RowRes) : RowRes × Int × Bool :=
+  let (s, last', outs) := handleEvent r.s tk e last
+  let r := { r with s := s, outs := r.outs ++ outs }
+  let r := if r.s.loop.caughtStart then
+      { r with s := { r.s with loop := { r.s.loop with caughtStart := false } }, nStart := r.nStart + 1,
+               outs := r.outs ++ (if r.s.hookLoopStart then [Out.loopStart] else []) } else r
+  let r := if r.s.loop.caughtStackStart then
+      { r with s := { r.s with loop := { r.s.loop with caughtStackStart := false } }, nStackStart := r.nStackStart + 1,
+               outs := r.outs ++ (if r.s.hookLoopStart && r.s.loopStartTime ≥ rowTime then [Out.loopStart] else []) } else r
+  let r := if r.s.loop.caughtStackBreak then
+      { r with s := { r.s with loop := { r.s.loop with caughtStackBreak := false } }, nStackBreaks := r.nStackBreaks + 1 } else r
+  if r.s.loop.caughtEnd || r.s.loop.isStackEnd then
+    let r := if r.s.loop.caughtStackEnd then
+        { r with s := { r.s with loop := { r.s.loop with caughtStackEnd := false } }, nStackEnds := r.nStackEnds + 1, stackEndsTime := rowTime } else r
+    ({ r with doJump := true }, last', true)
+  else (r, last', false)
+
+/-- the loop over the events of one row (a seek skips the note-ons) -/
 def rowEvents (isSeek : Bool) (tk : Nat) (rowTime : Rat) : List Ev → Int → RowRes → RowRes × Int
   | [], last, r => (r, last)
   | e :: es, last, r =>
     if isSeek && e.type == tNoteOn then rowEvents isSeek tk rowTime es last r else
-    let (s, last', outs) := handleEvent r.s tk e last
-    let r := { r with s := s, outs := r.outs ++ outs }
-    let r := if r.s.loop.caughtStart then
-        { r with s := { r.s with loop := { r.s.loop with caughtStart := false } }, nStart := r.nStart + 1,
-                 outs := r.outs ++ (if r.s.hookLoopStart then [Out.loopStart] else []) } else r
-    let r := if r.s.loop.caughtStackStart then
-        { r with s := { r.s with loop := { r.s.loop with caughtStackStart := false } }, nStackStart := r.nStackStart + 1,
-                 outs := r.outs ++ (if r.s.hookLoopStart && r.s.loopStartTime ≥ rowTime then [Out.loopStart] else []) } else r
-    let r := if r.s.loop.caughtStackBreak then
-        { r with s := { r.s with loop := { r.s.loop with caughtStackBreak := false } }, nStackBreaks := r.nStackBreaks + 1 } else r
-    if r.s.loop.caughtEnd || r.s.loop.isStackEnd then
-      let r := if r.s.loop.caughtStackEnd then
-          { r with s := { r.s with loop := { r.s.loop with caughtStackEnd := false } }, nStackEnds := r.nStackEnds + 1, stackEndsTime := rowTime } else r
-      ({ r with doJump := true }, last')
-    else rowEvents isSeek tk rowTime es last' r
+    match eventStep tk rowTime e last r with
+    | (r', last', true) => (r', last')
+    | (r', last', false) => rowEvents isSeek tk rowTime es last' r'
 
 /-- the first loop of processEvents over the tracks -/
 def tracksPass (isSeek : Bool) : Nat → Nat → RowRes → RowRes
@@ -797,7 +804,6 @@ def tracksPass (isSeek : Bool) : Nat → Nat → RowRes → RowRes
           -- end of the row list: mark the track finished and leave the loop over the tracks
           { r with s := { r.s with cur := { r.s.cur with track := r.s.cur.track.set tk { t with last := -1 } } } }
         | some row =>
-          let r := if !r.s.cur.began && row.events.any (·.type == tNoteOn) then r else r
           let (r, last) := rowEvents isSeek tk row.time row.events t.last r
           let t' : TrackPos := if last ≥ 0 then { delay := (t.delay + row.delay) % W, last := last, pos := t.pos + 1 } else { t with last := last }
           let r := { r with s := { r.s with cur := { r.s.cur with track := r.s.cur.track.set tk t' } } }
